@@ -611,6 +611,8 @@ class MinMaxAggregator:
             else:
                 rest_cond.append(cond)
         assert oldmax is not None
+        if oldmax.atom.symbol.arguments[minmaxpred[2]] != Variable(LOC, varname):
+            return [stm]
 
         # check if all Variables from old predicate are used in the tuple identifier
         # to make a unique semantics
@@ -694,6 +696,8 @@ class MinMaxAggregator:
 
         else:
             log.info(f"Cannot optimize {loc2str(term_tuple[0].location)} as the weight is not simple enough.")
+            return [elem]
+        if old_max.atom.symbol.arguments[minmaxpred[2]] != Variable(LOC, varname):
             return [elem]
 
         # check if all Variables from old predicate are used in the tuple identifier
